@@ -30,7 +30,7 @@ PROPS = {
     "C10": {
         "rules": [r_panic.run, r_panic.run_errprop, r_panic.run_narrow_arith,
                   kind_scope("dictionary::connector", "dictionary::mapper", "dictionary::unknown", "dictionary::lexicon"), r_cand.unkcover,
-                  r_panic.run_tok, r_map.verifystrict, r_scorer.rawbuild, r_char.packguard],
+                  r_panic.run_tok, r_map.verifystrict, r_scorer.rawbuild, r_char.packguard, r_panic.fieldwidth],
         "explanation": "PANIC: every potential panic or silent-wrap site (assert terminators for "
                        "bounds/overflow/division/shift, calls to unwrap/expect/panic!/assert!/"
                        "indexing/copy_from_slice/chunks/..., narrowing `as` casts) in the "
@@ -170,7 +170,7 @@ PROPS = {
     "C12": {
         "rules": [r_misc.lattice_shape, r_misc.spaceopt, r_viterbi.traceback,
                   kind_scope("tokenizer", "unknown"), r_cand.cand, r_cand.charrange,
-                  r_misc.optkeep_tokenizer, r_reset.run_tokens, r_char.run, r_cand.unkspans, r_cand.grouprun],
+                  r_misc.optkeep_tokenizer, r_reset.run_tokens, r_char.run, r_cand.unkspans, r_cand.grouprun, r_panic.fieldwidth],
         "explanation": "LATTICE: build_lattice_inner resets first, tests reachability, SPACE "
                        "membership and the skipped run at start_node, adds candidates with "
                        "(start_node, start_word), connects EOS from start_node on every path; "
@@ -204,7 +204,7 @@ PROPS = {
     "C01": {
         "rules": [r_token.access, r_token.tokiter, r_token.dispatch, r_cand.cand, r_cand.unkfall, r_viterbi.traceback,
                   r_reset.run_tokens, r_panic.run_narrow_dict, r_cand.unkcover, r_panic.run_tok,
-                  r_misc.spaceopt, r_char.run_key, r_cand.unkscan, kind_scope("dictionary::unknown", "token::")],
+                  r_misc.spaceopt, r_char.run_key, r_cand.unkscan, r_panic.fieldwidth, kind_scope("dictionary::unknown", "token::")],
         "explanation": "ACCESS: every Token accessor is a projection of the one stored (end, node) "
                        "pair and the sentence's offset table (ranges, surface, ids, costs, "
                        "feature); DISPATCH: each lexicon type is looked up in its own component "
@@ -227,7 +227,7 @@ PROPS = {
     "C02": {
         "rules": [r_viterbi.viterbi, r_viterbi.traceback, r_panic.run_narrow_lattice,
                   kind_scope("tokenizer", "connector", "lexicon::param", "unknown"),
-                  r_reset.run_tokens, r_panic.run_costsum, r_map.run_compose, r_codec.derived_caches],
+                  r_reset.run_tokens, r_panic.run_costsum, r_map.run_compose, r_codec.derived_caches, r_panic.fieldwidth],
         "explanation": "VITERBI: insert_node/insert_eos take (argmin, min) from one search over "
                        "the complete predecessor list of the very start_node they store, with "
                        "cost(pred.right_id, own left_id), min_cost = best + word_cost, EOS "
@@ -368,7 +368,7 @@ PROPS = {
                      "rule, branch-correlation rules, kind propagation",
     },
     "C04": {
-        "rules": [r_reset.run_tokens, r_share.run, r_misc.optkeep_tokenizer],
+        "rules": [r_reset.run_tokens, r_share.run, r_misc.optkeep_tokenizer, r_panic.fieldwidth],
         "thorough": [r_share.run_thorough],
         "explanation": "RESET: typestate dataflow (Dirty/Clean per persistent Worker buffer) over "
                        "the MIR of every Worker entry point and token observer, for every "
@@ -501,7 +501,9 @@ _ADDED2 = {
     "C03": "GROUPRUN: the run-continuation test of compute_groupable ANDs the category sets of two single characters (never an accumulated intersection). UNKSCAN: scan_entries loops over exactly offsets[base_id]..offsets[base_id+1] of the given CharInfo and every candidate carries the ids and cost of entries[i] with word_id = i. PACK as for C11 (the packed character record). CHARKEY: char_info indexes the table by the whole code point. MAPKEEP (user-lexicon installation): every successful return of reset_user_lexicon_from_reader has assigned data.user_lexicon and a None reader stores None, so a cleared user lexicon contributes no candidates.",
     "C11": "RAWINPUT (second level): library functions hand their caller's reader to Lexicon::from_reader / UnkHandler::from_reader unchanged. PACK: every value packed into a shared integer (`a | b << s`) is known to fit the gap up to the next field (type, mask, or a rejecting comparison on every path) - a (posting offset, homograph count) pair packed without a bound on the count would lose homographs.",
     "C10": "PACK as for C11: CharInfo::new rejects every value that does not fit its bit field. RAWBUILD (FTSMAX): the row width is folded over both bigram files.",
-    "C04": "OPTKEEP / OPTSET: the Tokenizer option setters return their receiver, and a field a setter assigns on one path it assigns on every successful path, so the options in force are a function of the last call's arguments and not of the history of option calls.",
+    "C01": "FIELDWIDTH: no position-, length- or count-carrying field of vibrato's types is narrowed to 16 bits or less relative to the confirmed tree (spec/field_types.json).",
+    "C02": "FIELDWIDTH as for C01 (back-pointers and start positions of lattice nodes).",
+    "C04": "FIELDWIDTH as for C01. OPTKEEP / OPTSET: the Tokenizer option setters return their receiver, and a field a setter assigns on one path it assigns on every successful path, so the options in force are a function of the last call's arguments and not of the history of option calls.",
     "C12": "OPTSET as for C04 (ignore_space / max_grouping_len). UNKSPAN: a prefix candidate is skipped on account of the sentence length only when it would end beyond the last character, so a sentence-final word has the candidates it has in front of a space run.",
     "C08": "OPTSET as for C04, over the Dictionary's by-value methods. MAPKEEP reset clauses: every Ok exit of reset_user_lexicon_from_reader assigns data.user_lexicon; with a None reader the only value assigned is None.",
     "C05": "LANES: U31x8::encode writes lanes 0..7 in order in both build configurations.",
